@@ -73,6 +73,15 @@ def get_frame(frame):
         raise UnknownFrameError(frame)
 
 
+def _unpickle(name, cls, state):
+    """Unpickling helper (see Frame.__reduce__)"""
+    if name in dynamic:
+        return dynamic[name]
+    obj = cls.__new__(cls)
+    obj.__dict__.update(state)
+    return obj
+
+
 class Frame:
     """Frame base class"""
 
@@ -100,6 +109,11 @@ class Frame:
 
     def __repr__(self):  # pragma: no cover
         return f"<{self.__class__.__name__} '{self.name}' at {hex(id(self))}>"
+
+    def __reduce__(self):
+        # Frames are unique objects, compared by identity: where the frame is
+        # registered, unpickling gives it back instead of a copy of the graphs
+        return _unpickle, (self.name, self.__class__, self.__dict__.copy())
 
     def transform(self, orbit, new_frame):
 
